@@ -207,6 +207,13 @@ func (f *Frame) pureExtern(st *State, fn *ssa.Function, args []Val) Val {
 		}
 	}
 	res := sig.Results()
+	if name == "regexp.(*Regexp).String" && len(args) == 1 {
+		// the source text of a compiled expression is fixed at compile time: a function of the pointer
+		if t, ok := args[0].(*Term); ok {
+			trust(f, "regexp.(*Regexp).String returns the same text for the same compiled expression")
+			return f.ctx.uf("ext!regexp.String", SStr, t)
+		}
+	}
 	if name == "fmt.Sprintf" && !f.top().relational {
 		if v, ok := f.modelSprintf(st, sig.Params().At(sig.Params().Len()-1).Type().(*types.Slice).Elem(), args); ok {
 			return v
